@@ -1,2 +1,42 @@
-(** C06 placeholder *)
-From GoSh Require Import Base.Bytes.
+(** C06 — Results are schedule-independent; nothing races or keeps running after return.
+    Theorems about the protocol model (Proto/LTS.v): lexer goroutine = deterministic emitting
+    program, parser = deterministic automaton, unbuffered token channel, cancel flag observed
+    only at emit / here-document wait, order-independent error slot, join before return. *)
+From GoSh Require Import Proto.Confluence Proto.LTS.
+
+(** For every lexer program, every parser automaton and every two complete runs (schedules) from
+    the initial configuration: the final configurations are equal -- returned value, error slot,
+    here-documents taken, number of tokens delivered. *)
+Theorem C06_schedule_independent :
+  forall (tok hd res pstate : Type) (pfeed : pstate -> tok -> pout hd pstate) (peof : pstate -> res + err)
+         (p : lprog tok) (s0 : pstate) a b,
+    steps _ (step tok hd res pstate pfeed peof) (init tok hd res pstate p s0) a ->
+    steps _ (step tok hd res pstate pfeed peof) (init tok hd res pstate p s0) b ->
+    final _ (step tok hd res pstate pfeed peof) a -> final _ (step tok hd res pstate pfeed peof) b -> a = b.
+Proof. exact schedule_independent. Qed.
+Print Assumptions C06_schedule_independent.
+
+(** When the call has returned the lexer goroutine has exited, and no step is possible any more
+    (nothing touches the reader or the results afterwards). *)
+Theorem C06_quiescent_at_return :
+  forall (tok hd res pstate : Type) (pfeed : pstate -> tok -> pout hd pstate) (peof : pstate -> res + err)
+         (p : lprog tok) (s0 : pstate) c r,
+    steps _ (step tok hd res pstate pfeed peof) (init tok hd res pstate p s0) c ->
+    cP _ _ _ _ c = PRet _ _ _ r ->
+    cL _ _ _ _ c = LExit _ /\ final _ (step tok hd res pstate pfeed peof) c.
+Proof. exact quiescent_at_return. Qed.
+Print Assumptions C06_quiescent_at_return.
+
+(** Once an error has been reported (cancel set) no token is delivered any more, whatever the
+    interleaving: emit's choice between "send" and "bail out" is never a coin toss. *)
+Theorem C06_no_delivery_after_cancel :
+  forall (tok hd res pstate : Type) (pfeed : pstate -> tok -> pout hd pstate) (peof : pstate -> res + err)
+         (p : lprog tok) (s0 : pstate) c c',
+    steps _ (step tok hd res pstate pfeed peof) (init tok hd res pstate p s0) c ->
+    step tok hd res pstate pfeed peof c c' -> cancel _ _ _ _ c = true ->
+    delivered _ _ _ _ c' = delivered _ _ _ _ c.
+Proof. exact no_delivery_after_cancel. Qed.
+Print Assumptions C06_no_delivery_after_cancel.
+
+(** Not expressible in this model (named, not proved): the Go memory model (data races are observed
+    with the race detector), fairness of the runtime scheduler, a caller's ReadRune that blocks. *)
